@@ -372,8 +372,12 @@ def main(argv=None):
         case = payload.get("case", payload)
         lean_check(prop, "quick")
         obs = mod.observe(case)
-        req = mod.model_request(case)
-        model = run_driver([req])[0] if req is not None else None
+        if hasattr(mod, "model_requests"):      # several model runs per case, depending on what was observed
+            reqs = mod.model_requests(case, obs)
+            model = run_driver(reqs) if reqs else None
+        else:
+            req = mod.model_request(case)
+            model = run_driver([req])[0] if req is not None else None
         issues = mod.judge(case, obs, model)
         print(json.dumps({"case": case, "observed": obs, "model": model,
                           "issues": [i.to_json() for i in issues]}, indent=1, default=str))
